@@ -1684,6 +1684,30 @@ func TestVerifDecoyRegProbe(t *testing.T) {
 		case <-time.After(w.wait(10 * time.Second)):
 		}
 	}
+	// 5. NewDecoyRegistrarWithDialer: "dialContext is a custom dialer to use when establishing TCP connections to decoys" - which
+	// dialer do the senders use?
+	{
+		r := vdrNewRun(w, 60, true)
+		var regDialer atomic.Int32
+		lg, skip := r.reg.logger, r.reg.insecureSkipVerify
+		r.reg = NewDecoyRegistrarWithDialer(func(ctx context.Context, network, addr string) (net.Conn, error) {
+			regDialer.Add(1)
+			return nil, fmt.Errorf("verif: the registrar's own dialer")
+		})
+		r.reg.logger, r.reg.insecureSkipVerify = lg, skip
+		r.call(2, false, false)
+		sess := int(r.cur.arrivals.Load())
+		r.step("DialRet", 1, "refused")
+		r.step("DialRet", 2, "refused")
+		r.step("CtxEnd", 0, "")
+		select {
+		case <-r.cur.returned:
+		case <-time.After(w.wait(10 * time.Second)):
+		}
+		out.Emit(map[string]any{"kind": "probe", "name": "registrar-dialer", "senders": 2, "dials_through_session_dialer": sess,
+			"dials_through_registrar_dialer": int(regDialer.Load())})
+		r.cleanup()
+	}
 	// 4. the second session's PrepareRegKeys while a sender of the first is still on its way (one registrar per
 	// tapdance.Dialer, PrepareRegKeys per DialConjure): which keys does the late sender's registration carry?
 	{
